@@ -243,14 +243,15 @@ class Reactor:
 
                     # Handle RELOAD
                     if signaled == Signal.RELOAD:
-                        self.reload()
-                        self.processes.start(self.configuration.processes, False)
+                        # a reload which failed changed nothing: the API processes are left alone
+                        if self.reload():
+                            self.processes.start(self.configuration.processes, False)
                         continue
 
                     # Handle FULL_RELOAD
                     if signaled == Signal.FULL_RELOAD:
-                        self.reload()
-                        self.processes.start(self.configuration.processes, True)
+                        if self.reload():
+                            self.processes.start(self.configuration.processes, True)
                         continue
 
                 # Check for incoming connections
